@@ -36,13 +36,50 @@ def _hash(obj):
     return hashlib.sha256(json.dumps(obj, sort_keys=True, default=str).encode()).hexdigest()[:16]
 
 
+class CaseTimeout(BaseException):
+    """raised by SIGALRM; BaseException so that `except Exception` in property code cannot swallow it"""
+
+
+import contextlib
+
+
+@contextlib.contextmanager
+def time_limit(sec):
+    """inner time limit inside a worker (re-arms the worker's own alarm afterwards); raises CaseTimeout"""
+    import signal
+    old = signal.alarm(0)
+    t0 = time.time()
+    signal.alarm(int(sec))
+    try:
+        yield
+    finally:
+        signal.alarm(0)
+        if old:
+            signal.alarm(max(1, old - int(time.time() - t0)))
+
+
+def _alarm(signum, frame):
+    raise CaseTimeout()
+
+
 def _worker(args):
+    import signal
     modname, case = args
     try:
         bootstrap.init()
         mod = importlib.import_module(modname)
         t0 = time.time()
-        r = mod.run_case(case)
+        limit = int(getattr(mod, "CASE_TIMEOUT", 120))
+        signal.signal(signal.SIGALRM, _alarm)
+        signal.alarm(limit)
+        try:
+            r = mod.run_case(case)
+        except CaseTimeout:
+            # a slow case is not a verdict; it is counted and reported (see "case_timeout" in the evidence)
+            return {"nontrivial": False, "tags": ["case_timeout"], "violations": [], "mismatches": [], "wall": time.time() - t0,
+                    "timeout": True}
+        finally:
+            signal.alarm(0)
         r.setdefault("mismatches", []); r.setdefault("violations", []); r.setdefault("tags", [])
         r.setdefault("nontrivial", True)
         r["wall"] = time.time() - t0
@@ -241,6 +278,9 @@ def main(prop, tier="quick", seed=0, replay=None):
     mkinds = {}
     for m in mismatches:
         mkinds[m["what"]] = mkinds.get(m["what"], 0) + 1
+    n_timeouts = sum(1 for r in results if r.get("timeout"))
+    if cases and n_timeouts * 5 > len(cases):
+        mismatches.append({"case": None, "what": "too-many-timeouts", "detail": "%d of %d cases exceeded the per-case time limit" % (n_timeouts, len(cases))})
     broke = bool(ob["broken"]) or bool(mismatches)
     searched = 0
     if broke and not violations and hasattr(mod, "search_cases") and not replay:
